@@ -8,7 +8,8 @@ MODULE = "Rspirv.Props.C15"
 THEOREMS = ["Rspirv.Props.C15.orders_ok", "Rspirv.Props.C15.C15_all_eq", "Rspirv.Props.C15.C15_mut",
             "Rspirv.Props.C15.C15_assemble", "Rspirv.Props.C15.C15_explicit",
             "Rspirv.Props.C15Inst.C15_inst_into", "Rspirv.Props.C15Inst.C15_inst_alone",
-            "Rspirv.Props.C15Inst.foldl_into", "Rspirv.Props.C15Inst.moduleInto_eq", "Rspirv.Props.C15Inst.C15_module_into"]
+            "Rspirv.Props.C15Inst.foldl_into", "Rspirv.Props.C15Inst.moduleInto_eq", "Rspirv.Props.C15Inst.C15_module_into",
+            "Rspirv.Props.C15Inst.chunks4_pack", "Rspirv.Props.C15Inst.C15_str_into"]
 SECT = ["s0", "s1", "s2", "mm", "s4", "s5", "s6", "s7", "s8", "s9", "s10"]
 
 
